@@ -26,6 +26,7 @@ Env ==
   \/ \E i \in 0..MaxId, typ \in {"res", "ent", "done"} : SrvOrphan(i, typ) /\ L([a |-> "orphan", o |-> IF i = 0 THEN "none" ELSE SlotOfId(i), typ |-> typ])
   \/ \E how \in {"eof", "reset", "wfail"} : SrvClose(how) /\ L([a |-> "close", how |-> how])
   \/ SrvGarbage /\ L([a |-> "garbage"])
+  \/ SrvGarbageOpen /\ L([a |-> "garbage-open"])
   \/ \E r \in c2s : SrvBadDone(r) /\ L([a |-> "baddone", o |-> r.op])
   \/ SrvStall /\ L([a |-> "stall"])
   \/ SrvResume /\ L([a |-> "resume"])
